@@ -18,6 +18,9 @@ var flowTexts = map[string][3]string{
 	"C16": {"std/algebra, std/signature, std/evmprecompiles",
 		"every scalar-decomposition, point, line, inverse / division and residue-witness hint output of the curve, pairing and tower-field gadgets reaches an assertion (AssertIsEqual / Check / AssertIsBoolean ...), directly or through the emulated-field deferred checks",
 		"formula correctness, exceptional cases, agreement with native results"},
+	"C17": {"std/recursion/{groth16,plonk}, std/commitments/{kzg,pedersen}, std/fiat-shamir",
+		"every operand of the in-circuit verifiers' exported functions (inner proof, verifying key, public witness, commitments, openings, transcript inputs) reaches the assertion / pairing-check sinks it reaches today, with at least the reviewed number of distinct sink sites (AssertIsEqual of the pairing / KZG checks, range checks of scalars, transcript hashing), and hint outputs used by the gadgets are constrained",
+		"accept-set equality with the native verifiers, the algebra of the checks, Fiat-Shamir ordering (value-level order is not visible to a flow-insensitive analysis)"},
 	"C19": {"std/gkr and gkr-poseidon2",
 		"the GKR solving-hint and proving-hint outputs reach the in-circuit verifier's assertions (AssertIsEqual via the assignment / proof objects) and the commitment used for the initial challenge",
 		"sum-check algebra, the native prover, topological sorting"},
@@ -26,9 +29,6 @@ var flowTexts = map[string][3]string{
 func init() {
 	for id := range flowAreas {
 		id := id
-		if id == "C17" {
-			continue
-		}
 		register(id, []string{"./..."}, func(p *Prog, r *Report) {
 			t := flowTexts[id]
 			r.Engines = []string{"flow(FLOW-SOME,FLOW-REF)"}
@@ -37,7 +37,7 @@ func init() {
 			r.Assumptions = []string{"may-analysis: over-approximated flows can only hide a missing constraint, never raise a false alarm", "call graph: static callees + CHA on gnark-declared interfaces; frontend.API methods are primitives (sinks or arithmetic)", "hint inputs do not flow to hint outputs (outputs are unconstrained until asserted)"}
 			cg := BuildCallGraph(p)
 			e := newFlowEngine(p, cg)
-			min := map[string]int{"C05": 25, "C12": 5, "C13": 4, "C14": 7, "C16": 50, "C19": 4}[id]
+			min := map[string]int{"C05": 25, "C12": 5, "C13": 4, "C14": 7, "C16": 50, "C17": 1, "C19": 4}[id]
 			RunFlow(p, r, e, id, pkgScope(flowAreas[id]...), min)
 			r.RequireMin("FLOW-REF", min)
 		})
